@@ -211,7 +211,7 @@ func c06Measure(ctx *Ctx) ([]c06Row, []string, error) {
 			if err != nil {
 				return nil, nil, err
 			}
-			for k := 0; k <= 11; k++ {
+			for k := 0; k < len(stimulusName); k++ {
 				req, ok := st[k]
 				if !ok {
 					continue
